@@ -6,6 +6,22 @@ var realAll = []string{"every package of /repo (scratch copy, mechanically instr
 
 func init() {
 	register(&propCfg{
+		id: "C19", worker: "c19", goCmd: "go1.26.8", testBinary: true,
+		instrument: []string{"-maps", "-clock", "-tick", "-chan", "gtab/builder"},
+		tiers: map[string]tierCfg{
+			"quick":    {cases: 40_000, timeout: 15 * time.Minute},
+			"thorough": {cases: 3_000_000, timeout: 120 * time.Minute},
+		},
+		level: "exploration",
+		rule: "case = one tape: a font (debug font with glyph names A..Z, Go Regular with post names, Go Regular without names; all with a cmap) and a text: 5/9 a tape-chosen selection of lookups from two sample descriptions covering GSUB1-6 and GPOS1-4, 3/9 the Explain output of generated lookups, 1/9 random bytes; 0..3 token-level faults (delete, duplicate, swap, replace by another token kind, truncate, unterminated string, unmapped rune at a tape-chosen position of a string, NUL byte, stray $). builder.Parse runs inside a testing/synctest bubble; before every channel send, receive, range and close of the builder package the goroutine parks, and at every quiescence the tape picks which parked goroutine proceeds (the parse error is the fault: it decides where the consumer abandons the producers). Oracles: quiescence without a parked goroutine and without Parse having returned = deadlock; goroutines of the builder package alive after Parse returned and everything was released = leak; panic; step budget; an error must start with a line number in 1..lines+1. Accepted texts go through Explain and Parse again (incidental round trip). Non-trivial = every case; distinct = distinct (font, text, schedule).",
+		real:  realAll,
+		stubs: []string{"goroutine scheduling inside the bubble (tape-driven release at channel operations; testing/synctest provides quiescence detection)", "map iteration order", "step counter"},
+		assume: []string{
+			"the lexer/parser/string-decoder network communicates over unbuffered channels only; yields are inserted before every channel operation found in the builder package at check time",
+			"GOMAXPROCS does not influence the outcome inside the bubble (exactly one goroutine is released at a time); the determinism self-test runs at 1, 4 and 16",
+		},
+	})
+	register(&propCfg{
 		id: "C16", worker: "c16", goCmd: "go", race: true, chunk: 8,
 		instrument: []string{"-maps", "-clock", "-tick"},
 		tiers: map[string]tierCfg{
